@@ -274,7 +274,7 @@ def neighbourhood_search(run, pid, seeds, oracle_fn, prepare, rng, per_seed=120)
     return False
 
 
-def main(tier: str, pid=PID, gen=gen_case, oracle_fn=oracle, n_quick=4000, n_thorough=150000,
+def main(tier: str, pid=PID, gen=gen_case, oracle_fn=oracle, n_quick=4000, n_thorough=100000,
          rule=None, extra_tb=None, targets=None, prepare=None, extra_cases=None, nontrivial=None) -> int:
     targets = targets or ["Sim/Case.vo", f"Props/{pid}.vo"]
     run = C.Run(pid, tier)
